@@ -4,7 +4,7 @@
    and the structural part of the property; navis' answers are compared with it by the correspondence run. *)
 From Coq Require Import List ZArith QArith Bool.
 Import ListNotations.
-From Navis Require Import model.Volume proofs.VolumeProofs.
+From Navis Require Import model.Volume proofs.VolumeProofs proofs.RayParity.
 Open Scope Q_scope.
 
 Theorem C18_in_out_partition : forall s pts, map negb (keep_in s pts) = keep_out s pts.
@@ -32,3 +32,18 @@ Theorem C18_nearest_checker_exact : forall q pts k, is_nearest_b q pts k = true 
   exists pk, nth_error pts k = Some pk /\ forall p, In p pts -> d2 q pk <= d2 q p.
 Proof. exact is_nearest_b_spec. Qed.
 Print Assumptions C18_nearest_checker_exact.
+
+(* the crossing-parity rule a ray caster applies is correct on the ground-truth solid families: for a point in generic position
+   (on no face plane) the number of mesh faces hit by the axis-parallel ray is odd exactly when the point is in the solid -
+   for one box, and for disjoint boxes with disjoint box-shaped cavities inside them (proofs/RayParity.v).  This is the Jordan
+   parity argument for these families; arbitrary watertight meshes remain outside the model. *)
+Theorem C18_parity_box : forall b p, generic_box b p -> Nat.odd (crossings_box b p) = in_box b p.
+Proof. exact parity_box. Qed.
+Print Assumptions C18_parity_box.
+Theorem C18_parity_solid : forall s p,
+  (forall b, In b (plus s ++ minus s) -> generic_box b p) ->
+  disjoint_boxes (plus s) p -> disjoint_boxes (minus s) p ->
+  (existsb (fun b => in_box b p) (minus s) = true -> existsb (fun b => in_box b p) (plus s) = true) ->
+  Nat.odd (crossings s p) = in_solid s p.
+Proof. exact parity_solid. Qed.
+Print Assumptions C18_parity_solid.
